@@ -291,6 +291,9 @@ def run(ctx):
     ctx.audit("Slock.Properties.C19", THEOREMS)
     if ctx.tier == "thorough":
         ctx.leanchecker("Slock.Properties.C19")
+    # G3: how a Database's default flags reach every primitive it builds (regenerated mergeTimeoutFlag / mergeExpriedFlag)
+    if ctx.lake_build(["Slock.Proofs.KernelsClient"], exe=False):
+        ctx.audit("Slock.Proofs.KernelsClient", ["Slock.Client.mergeTimeoutFlag_generated", "Slock.Client.mergeExpriedFlag_generated", "Slock.Client.merge_independent"])
     ctx.cov["client_tuples"] = len((ctx.facts or {}).get("clientparams") or [])
     if build_binaries(ctx):
         selftest(ctx)
